@@ -396,6 +396,27 @@ pub fn gen_db(r: &mut Rng, max_rows: u64, extra_types: &[&str]) -> GenDb {
             g.script.push(format!("{};", sql));
             g.db.exec(&sql);
         }
+        // schema history: nullability changed after creation (ALTER edits the stored table's schema;
+        // the saved file must describe the table as it is now, not as it was created). ADD / DROP
+        // COLUMN are left to C33 (recorded finding C33/alter-column-catalog-not-updated).
+        if r.chance(1, 3) {
+            let cands: Vec<usize> = (0..schema.columns.len()).filter(|i| !(*i == 0 && has_pk)).collect();
+            if !cands.is_empty() {
+                let c = *r.pick(&cands);
+                let all_non_null = g.db.db.get_table(&tname).map(|t| t.scan().iter().all(|row| !row.values[c].is_null())).unwrap_or(false);
+                let sql = if schema.columns[c].nullable && all_non_null {
+                    format!("ALTER TABLE {} ALTER COLUMN C{} SET NOT NULL", tname, c)
+                } else if !schema.columns[c].nullable {
+                    format!("ALTER TABLE {} ALTER COLUMN C{} DROP NOT NULL", tname, c)
+                } else {
+                    String::new()
+                };
+                if !sql.is_empty() {
+                    g.script.push(format!("{};", sql));
+                    g.db.exec(&sql);
+                }
+            }
+        }
     }
     g
 }
